@@ -5,6 +5,7 @@ from oracles import ref_ber
 from sx.harness import exc_site
 
 NOTICE_OID = b"1.3.6.1.4.1.1466.20036"
+UNBIND_FORM = "UnbindRequest: [APPLICATION 2] NULL must be primitive"
 
 
 def po(ctx):
@@ -142,10 +143,13 @@ def checked_receive(ctx, sess, side, data, tag=""):
 def check_notification(ctx, side, resp):
     """the bytes attached to a ProtocolError are a well-formed unbind (client) / notice (server)"""
     ref = ref_ber.Ref(ctx, "notification")
+    ref.lenient_unbind = True
     try:
         m = ref.message(resp)
     except (ref_ber.RefError, ref_ber.Incomplete) as e:
         ctx.fail("notification-not-wellformed", f"{side}:{type(e).__name__}:{e}")
+    if ref.saw_constructed_unbind:
+        ctx.report("notification-not-wellformed", f"{side}:RefError:{UNBIND_FORM}")
     kind, fields = m["op"]
     ctx.observe("notification", kind)
     if side == "client":
